@@ -148,41 +148,7 @@ fn toa_monotone() {
     assert!(a <= b, "C16: time on air decreases when the payload grows");
 }
 
-//@h id=symbol_conversions props=C16 tier=quick build=mod cost=60 timeout=600
-//@bounds all SF x BW; symbols_to_ms for symbols 0..=8189 (t_sym * symbols fits u32 for every symbol time); delay_in_symbols for delay 0..=65535 ms whose quotient fits u16
-//@encodes BaseBandModulationParams::symbols_to_ms, BaseBandModulationParams::delay_in_symbols
-//@assumes arguments outside the stated ranges (products beyond u32, quotients beyond u16) are outside the documented domain of these two helpers
-#[kani::proof]
-#[kani::unwind(8)]
-fn symbol_conversions() {
-    let symbols: u32 = kani::any();
-    kani::assume(symbols <= 8189);
-    let ms: u32 = kani::any();
-    kani::assume(ms <= 65_535);
-    // (SF, BW) is enumerated concretely (80 instances) so that every division in the code under
-    // test has a constant divisor; the oracle states floor division by its defining inequalities
-    macro_rules! one {
-        ($sf:ident, $bw:ident) => {{
-            let p = BaseBandModulationParams::new(SpreadingFactor::$sf, Bandwidth::$bw, CodingRate::_4_5);
-            let t = ref_tsym(SpreadingFactor::$sf, Bandwidth::$bw) as u64;
-            let r = p.symbols_to_ms(symbols) as u64;
-            let prod = t * symbols as u64;
-            assert!(r * 1000 <= prod && prod < (r + 1) * 1000, "C16: symbols_to_ms");
-            let us = ms as u64 * 1000;
-            if us < 65_536 * t {
-                let q = p.delay_in_symbols(ms) as u64;
-                assert!(q * t <= us && us < (q + 1) * t, "C16: delay_in_symbols");
-            }
-        }};
-    }
-    macro_rules! all_bw {
-        ($sf:ident) => {
-            one!($sf, _7KHz); one!($sf, _10KHz); one!($sf, _15KHz); one!($sf, _20KHz); one!($sf, _31KHz);
-            one!($sf, _41KHz); one!($sf, _62KHz); one!($sf, _125KHz); one!($sf, _250KHz); one!($sf, _500KHz);
-        };
-    }
-    all_bw!(_5); all_bw!(_6); all_bw!(_7); all_bw!(_8); all_bw!(_9); all_bw!(_10); all_bw!(_11); all_bw!(_12);
-}
+// symbols_to_ms / delay_in_symbols are decided by the E2 engine (lib/engines.py: job_c16_symbols)
 
 //@h id=ldro_rule_modulation props=C15 tier=quick build=mod cost=5 timeout=300
 //@bounds all 8 SF x 10 BW (80 pairs) x 4 CR in one query
